@@ -488,6 +488,31 @@ class Builtins:
         r.range = (lo, hi, step)  # type: ignore
         return r
 
+    def bi_itertools_chain(self, args, kwargs, node, fr) -> V:
+        """``itertools.chain(a, b, ...)`` over lists: the concatenation, read through the operands."""
+        lists: List[VList] = []
+        for a in args:
+            if isinstance(a, VOpt):
+                a = self.unwrap(a, node, fr, "chained value")
+            if isinstance(a, VTuple):
+                a = VList(list(a.items))
+            if not isinstance(a, VList):
+                raise Unsupported("itertools.chain over a non-list")
+            lists.append(a)
+        if all(x.is_concrete() for x in lists):
+            return VList([y for x in lists for y in x.tail])
+        lens = [x.length() for x in lists]
+        total = z3.simplify(sum(lens[1:], lens[0])) if lens else z3.IntVal(0)
+
+        def get(idx: Any) -> V:
+            off: Any = z3.IntVal(0)
+            for k, x in enumerate(lists):
+                if k == len(lists) - 1 or self.path.branch(idx < off + lens[k]):
+                    return self.list_get(x, idx - off, node, fr)
+                off = off + lens[k]
+            raise PathEnd("index")
+        return VList([], base_len=total, base_get=get)
+
     def bi_enumerate(self, args, kwargs, node, fr) -> V:
         r = VBuiltin("enumerate-object")
         r.inner = args[0]  # type: ignore
